@@ -91,6 +91,9 @@ add('float_literal_precision', '', 'let x: float = 1.00000001\nlet y: float = 1.
 add('for_range_end_once', 'fn tre(x: int) -> int {\n (println "end")\n return x\n}\nshadow tre { assert true }', 'for i in (range 0 (tre 3)) {\n (println i)\n}', 'end\n0\n1\n2\n')
 add('block_shadow_selfref', '', 'let x: int = 5\nif (> x 1) {\n let x: int = (+ x 1)\n (println x)\n}\n(println x)', '6\n5\n')
 add('block_shadow_mut_mismatch', '', 'let mut x: int = 1\nif (> x 0) {\n let x: int = 2\n (println x)\n}\nset x 3\n(println x)', '2\n3\n')
+add('float_global_whole', 'let fa: float = 5.0\nlet fb: float = 2.0', '(println (> (/ fa fb) 2.25))\n(println (== (/ fa fb) 2.5))', 'true\ntrue\n')
+add('field_of_call_result', 'struct PA { x: int, y: int }\nstruct QA { y: int, x: int }\nfn mkq(v: int) -> QA {\n return QA { y: (* v 10), x: v }\n}\nshadow mkq { assert true }', '(println (mkq 5).x)\n(println (mkq 5).y)', '5\n50\n')
+add('for_in_array', '', 'let arr: array<int> = [4, 5, 6]\nfor e in arr {\n (println e)\n}', '4\n5\n6\n')
 add('import_fnvalue', '', '(println "skip")', 'skip\n')
 
 
